@@ -311,11 +311,11 @@ Qed.
 (* ---------------------------------------------------------------------------------------- *)
 Definition allshm (ss : list slice) : Prop := Forall (fun x => shmf x = true) ss.
 
-(* [ext] = the slots owned by the OTHER direction of the stream pair (nothing for a single pipe), [E] = their
+(* [ext] = the slots owned by the OTHER direction of the stream pair (nothing for a single pipe), [Eg] = their
    contents when the step started (ghost): an operation of this direction never touches them *)
 Section WithExt.
 Variable ext : list nat.
-Variable E : nat -> option slot.
+Variable Eg : nat -> option slot.
 
 Record Inv (s : sys) (sp : spec) (idss : list (list nat)) : Prop := {
   iv_ok : store_ok (mem s);
@@ -332,7 +332,7 @@ Record Inv (s : sys) (sp : spec) (idss : list (list nat)) : Prop := {
   iv_shm1 : idss <> [] -> allshm (slices (rcv s));
   iv_shm2 : infb s = false -> allshm (slices (rcv s)) /\ (forall d, ~ In (PFallback d) (pend s));
   iv_leases : leases_ok (mem s) (rcv s);
-  iv_ext : forall x, 0 < cnt ext x -> slot_at (mem s) x = E x;
+  iv_ext : forall x, 0 < cnt ext x -> slot_at (mem s) x = Eg x;
   iv_start : start0 (slices (rcv s));
   iv_rwp : rwp (rcv s);
   iv_saux : pinned (snd s) = [] /\ recycled (snd s) = [] /\ leases (snd s) = [] }.
@@ -426,6 +426,10 @@ Proof.
   - exact I11.
   - exact I12.
   - apply (leases_ok_frame (mem s)); [|exact I13]. intros x Hx. apply Hother, Hnot. specialize (I8 x). destruct Hx as [Hx|Hx]; apply cnt_In in Hx; lia.
+  - intros x Hx. rewrite Hother; [exact (I14 x Hx)|]. apply Hnot. specialize (I8 x). lia.
+  - exact I15.
+  - exact I16.
+  - exact I17.
 Qed.
 
 Lemma nth_error_split_offs (ss : list slice) i b : nth_error ss i = Some b -> shmf b = true ->
@@ -467,6 +471,10 @@ Proof.
   - exact I11.
   - exact I12.
   - apply (leases_ok_frame (mem s)); [|exact I13]. intros x Hx. apply Hother, Hnot. specialize (I8 x). destruct Hx as [Hx|Hx]; apply cnt_In in Hx; lia.
+  - intros x Hx. rewrite Hother; [exact (I14 x Hx)|]. apply Hnot. specialize (I8 x). lia.
+  - exact I15.
+  - exact I16.
+  - exact I17.
 Qed.
 
 Lemma Inv_ofree s sp idss i b :
@@ -504,6 +512,10 @@ Proof.
   - exact I11.
   - exact I12.
   - apply (leases_ok_frame (mem s)); [|exact I13]. intros x Hx. apply R3, Hnot. specialize (I8 x). destruct Hx as [Hx|Hx]; apply cnt_In in Hx; lia.
+  - intros x Hx. rewrite R3; [exact (I14 x Hx)|]. apply Hnot. specialize (I8 x). lia.
+  - exact I15.
+  - exact I16.
+  - exact I17.
 Qed.
 
 (* --- Flush ------------------------------------------------------------------------------------ *)
@@ -530,7 +542,8 @@ Qed.
 Lemma WB_clean m l : WB m (clean l).
 Proof.
   constructor; cbn [clean slices wpos len fromshm]; try constructor; try reflexivity; try (intros H; congruence).
-  intros _. cbn. split; [lia|constructor].
+  - cbn. lia.
+  - constructor.
 Qed.
 
 Lemma content_clean m l : content m (clean l) = [].
@@ -580,6 +593,10 @@ Proof.
   - exact I11.
   - intros E. discriminate.
   - apply (leases_ok_frame (mem s)); [|exact I13]. intros x Hx. apply Hother. specialize (I8 x). destruct Hx as [Hx|Hx]; apply cnt_In in Hx; lia.
+  - intros x Hx. rewrite Hother; [exact (I14 x Hx)|]. specialize (I8 x). lia.
+  - exact I15.
+  - exact I16.
+  - destruct I17 as [A1 [A2 A3]]. cbn [clean l2 set_leases pinned recycled leases]. repeat split; auto.
 Qed.
 
 Lemma Inv_flush s sp idss : Inv s sp idss ->
@@ -624,6 +641,10 @@ Proof.
         -- intros _. exact Hrs.
         -- intros _. split; [exact Hrs|]. intros d Hin. apply in_app_or in Hin. destruct Hin as [Hin|[Hin|[]]]; [apply (Hnofb d); exact Hin|discriminate].
         -- apply (leases_ok_frame (mem s)); [|exact I13]. intros x Hx. apply Hother. specialize (I8 x). destruct Hx as [Hx|Hx]; apply cnt_In in Hx; lia.
+        -- intros x Hx. rewrite Hother; [exact (I14 x Hx)|]. specialize (I8 x). lia.
+        -- exact I15.
+        -- exact I16.
+        -- destruct I17 as [A1 [A2 A3]]. cbn [clean pinned recycled leases]. repeat split; auto.
     + (* the buffer left shared memory: fallback *)
       unfold lb_done. rewrite Ef. cbn [bind]. rewrite Ef. cbn [negb]. rewrite orb_true_r.
       unfold lb_recycle. eexists. exists idss. split; [reflexivity|].
@@ -654,7 +675,7 @@ Proof.
     destruct (move_to_spec (pend s) idss (infl sp) (mem s) (rcv s) I1 I5 I4) as [m1 [l1 [Hrun [M Mshm]]]].
     + intros x. specialize (I8 x). lia.
     + exact I11.
-    + rewrite Hrun. cbn [bind]. destruct M as [M1 M2 M3 M4 Mm M6 M7 M8 Mc Ms M9 M10 M11 M12 M13].
+    + rewrite Hrun. cbn [bind]. destruct M as [M1 M2 M3 M4 Mm M6 M7 M8 Mc Ms M9 M10 M11 M12 M13 Mst Mrw].
       assert (Hl1 : len l1 = Z.of_nat (length (av sp ++ infl sp))).
       { rewrite (wf_len _ _ M1), M2, I6. reflexivity. }
       rewrite Hl1, app_length.
@@ -682,6 +703,10 @@ Proof.
         -- intros le Hin. rewrite M13 in Hin. destruct (I13 le Hin) as [Hh Hb]. split.
            ++ apply (lease_held_prefix (rcv s) l1); [exists app; exact Happ|exact M10|exact M11|exact Hh].
            ++ intros Hs. rewrite (lease_bytes_same (mem s) m1 le M8). apply Hb. exact Hs.
+        -- intros x Hx. specialize (I8 x). rewrite Hother by lia. exact (I14 x Hx).
+        -- apply Mst. exact I15.
+        -- apply Mrw. exact I16.
+        -- exact I17.
   - destruct (Z.ltb_spec (Z.of_nat (length (av sp))) (Z.of_nat n)) as [|_]; [lia|].
     exists s, idss. split; [reflexivity|]. split; [exact I|exact Hge].
 Qed.
@@ -724,6 +749,10 @@ Proof.
   - intros E. apply Hshm. apply I11. exact E.
   - intros Eb. destruct (I12 Eb) as [Hrs Hnofb]. split; [apply Hshm; exact Hrs|exact Hnofb].
   - apply (leases_ok_data (mem s) m2 _ R5). intros le Hin. exact (K3 I13 le Hin).
+  - intros x Hx. specialize (Hrown x). specialize (I8 x). rewrite Hother by lia. exact (I14 x Hx).
+  - destruct (revolve_keeps (mem s) (rcv s) l2 (fun s0 => start s0 = 0) (fun s0 k H => H) Hrev) as [_ [_ [_ [S4 _]]]]. exact (S4 I15).
+  - exact (K5 I16).
+  - exact I17.
 Qed.
 
 (* --- releases and close ------------------------------------------------------------------------ *)
@@ -766,13 +795,20 @@ Proof.
     + exact I11.
     + exact I12.
     + apply leases_ok_nil. reflexivity.
+    + intros x Hx. specialize (I8 x). rewrite Hother by lia. exact (I14 x Hx).
+    + exact I15.
+    + exact I16.
+    + exact I17.
 Qed.
 
 Lemma Inv_drop_front s sp idss x r :
-  Inv s sp idss -> slices (rcv s) = x :: r -> ssize x = 0 -> leases (rcv s) = [] ->
+  Inv s sp idss -> slices (rcv s) = x :: r -> ssize x = 0 -> leases (rcv s) = [] -> wpos (rcv s) = WAt 0 ->
   Inv (with_mem_rcv s (recycle (mem s) x) (set_wpos (set_slices (rcv s) r) WNil)) sp idss.
 Proof.
-  intros I Es Hz Hle. pose proof I as [I1 I2 I3 I4 I5 I6 I7 I8 I9 [I10a I10b] I11 I12 I13 I14 I15 I16 I17].
+  intros I Es Hz Hle Hwp0. pose proof I as [I1 I2 I3 I4 I5 I6 I7 I8 I9 [I10a I10b] I11 I12 I13 I14 I15 I16 I17].
+  assert (Hrnil : length r = 0).
+  { destruct I16 as [Hn|Hw]; [congruence|]. rewrite Es, Hwp0 in Hw. cbn [length] in Hw. injection Hw as Hw. lia. }
+  assert (Hst' : start0 r) by (unfold start0 in *; rewrite Es in I15; inversion I15; assumption).
   pose proof I5 as [G1 G2 G3]. rewrite Es in G2, G3. inversion G3 as [|? ? Gx Gr]; subst.
   assert (Hb0 : body (mem s) x = []) by (apply length_zero_iff_nil; rewrite (body_length (mem s) x Gx); exact Hz).
   assert (Hc0 : content (mem s) (set_wpos (set_slices (rcv s) r) WNil) = content (mem s) (rcv s)).
@@ -806,6 +842,10 @@ Proof.
     + intros E. specialize (I11 E). unfold allshm in *. rewrite Es in I11. inversion I11; assumption.
     + intros E. destruct (I12 E) as [A B]. split; [|exact B]. unfold allshm in *. rewrite Es in A. inversion A; assumption.
     + apply leases_ok_nil. exact Hle.
+    + intros y Hy. specialize (I8 y). rewrite Hother; [exact (I14 y Hy)|apply Hne; left; lia].
+    + exact Hst'.
+    + left. apply length_zero_iff_nil. exact Hrnil.
+    + exact I17.
   - rewrite (recycle_heap (mem s) x Ex).
     assert (Hoffs : offs (slices (rcv s)) = offs r) by (rewrite Es; apply offs_cons_heap; exact Ex).
     constructor; cbn [mem snd pend rcv oth infb with_mem_rcv slices pinned recycled set_wpos set_slices leases]; auto.
@@ -814,6 +854,7 @@ Proof.
     + intros E. specialize (I11 E). unfold allshm in *. rewrite Es in I11. inversion I11; assumption.
     + intros E. destruct (I12 E) as [A B]. split; [|exact B]. unfold allshm in *. rewrite Es in A. inversion A; assumption.
     + apply leases_ok_nil. exact Hle.
+    + left. apply length_zero_iff_nil. exact Hrnil.
 Qed.
 
 Lemma Inv_release s sp idss : Inv s sp idss ->
@@ -823,20 +864,29 @@ Proof.
   destruct (clean_pinned (mem s) (rcv s)) as [m1 l1]. destruct H as [I' [Hp [Hs [Hw Hl]]]].
   cbn [slices set_leases wpos].
   destruct (slices l1) as [|x r] eqn:Es; [exact I'|].
-  destruct (wpos l1) as [|[|k]|]; try exact I'.
+  destruct (wpos l1) as [|[|k]|] eqn:Ew; try exact I'.
   destruct (Nat.eqb_spec (ssize x) 0) as [Hz|Hnz]; [|exact I'].
   pose proof (Inv_drop_front (with_mem_rcv s m1 (set_leases l1 [])) sp idss x r I') as D.
-  cbn [mem rcv with_mem_rcv slices set_leases leases] in D. apply D; auto.
+  cbn [mem rcv with_mem_rcv slices set_leases leases wpos] in D. apply D; auto.
 Qed.
 
+(* what the slice kept by releasePreviousReadAndReserve looks like (it is adopted as a write buffer when
+   Stream.ReleaseReadAndReuse swaps) *)
+Definition reserved_shape (m1 : shm) (l1 : lbuf) : Prop :=
+  pinned l1 = [] /\ leases l1 = [] /\
+  (len l1 = 0%Z -> length (slices l1) = 1 ->
+   exists y t, slices l1 = [y] /\ shmf y = true /\ rd y = 0 /\ wr y = 0 /\ slot_at m1 (off y) = Some t /\ st_hasnext t = false).
+
 Lemma Inv_release_reserve s sp idss : Inv s sp idss ->
-  let '(m1, l1) := release_reserve (mem s) (rcv s) in Inv (with_mem_rcv s m1 l1) sp idss.
+  let '(m1, l1) := release_reserve (mem s) (rcv s) in Inv (with_mem_rcv s m1 l1) sp idss /\ reserved_shape m1 l1.
 Proof.
   intros I. pose proof (Inv_clean_pinned s sp idss I) as H. unfold release_reserve.
   destruct (clean_pinned (mem s) (rcv s)) as [m1 l1]. destruct H as [I' [Hp [Hs [Hw Hl]]]].
   cbn [len set_leases slices].
-  destruct (Z.eqb_spec (len l1) 0) as [Hz|Hnz]; [|exact I'].
-  destruct (slices l1) as [|x [|x2 r]] eqn:Es; try exact I'.
+  destruct (Z.eqb_spec (len l1) 0) as [Hz|Hnz];
+    [|split; [exact I'|split; [exact Hp|split; [reflexivity|cbn [len set_leases]; intros; lia]]]].
+  destruct (slices l1) as [|x [|x2 r]] eqn:Es;
+    try (split; [exact I'|split; [exact Hp|split; [reflexivity|cbn [slices set_leases]; rewrite Es; cbn [length]; intros; lia]]]).
   pose proof I' as [I1 I2 I3 I4 I5 I6 I7 I8 I9 [I10a I10b] I11 I12 I13 I14 I15 I16 I17].
   cbn [mem snd pend rcv oth infb with_mem_rcv slices pinned recycled set_leases leases] in *.
   assert (Hav : av sp = []).
@@ -852,6 +902,9 @@ Proof.
     assert (Hne : forall y, cnt (offs [x]) y = 0 -> y <> off x).
     { intros y Hy ->. rewrite Hoffs, cnt_cons, ind_same in Hy. lia. }
     assert (Hsd : same_data m1 m2) by (apply same_data_upd_hdr; reflexivity).
+    split; [|split; [exact Hp|split; [reflexivity|]]].
+    2: { intros _ _. destruct (Rx Ex) as [t [Ht _]]. exists (sreset x), (hdr_reset t). repeat split; auto.
+         unfold m2. apply slot_at_upd_same. exact Ht. }
     constructor; cbn [mem snd pend rcv oth infb with_mem_rcv slices pinned recycled set_slices set_leases leases].
     + apply store_ok_upd; [exact I1|intros t; split; reflexivity|exact Hnf].
     + apply (WB_frame m1); [|exact I2]. intros y Hy. apply cnt_In in Hy. specialize (I8 y). rewrite Es in I8. apply Hother, Hne. lia.
@@ -870,14 +923,22 @@ Proof.
     + intros _. constructor; [exact Ex|constructor].
     + intros E. destruct (I12 E) as [A B]. split; [constructor; [exact Ex|constructor]|exact B].
     + apply leases_ok_nil. reflexivity.
+    + intros y Hy. specialize (I8 y). rewrite Es in I8. rewrite Hother; [exact (I14 y Hy)|apply Hne; lia].
+    + unfold start0 in *. rewrite Es in I15. inversion I15; subst. constructor; [assumption|constructor].
+    + right. unfold rwp in I16. cbn [slices wpos set_leases set_slices] in *. rewrite Es in I16.
+      destruct I16 as [Hn|Hw0]; [discriminate|]. exact Hw0.
+    + exact I17.
   - (* a heap slice is simply dropped *)
     assert (Hoffs : offs [x] = []) by (apply (offs_cons_heap x [] Ex)).
+    split; [|split; [exact Hp|split; [reflexivity|cbn; intros; lia]]].
     constructor; cbn [mem snd pend rcv oth infb with_mem_rcv slices pinned recycled set_wpos set_slices set_leases leases]; auto.
     + constructor; cbn [slices set_wpos set_slices set_leases len]; [rewrite Hz; reflexivity|constructor|constructor].
     + intros y. specialize (I8 y). rewrite Es, Hoffs in I8. exact I8.
     + intros _. constructor.
     + intros E. destruct (I12 E) as [A B]. split; [constructor|exact B].
     + apply leases_ok_nil. reflexivity.
+    + constructor.
+    + left. reflexivity.
 Qed.
 
 Lemma Inv_close s sp idss : Inv s sp idss ->
@@ -906,6 +967,10 @@ Proof.
   - intros _. constructor.
   - intros E. destruct (I12 E) as [A B]. split; [constructor|exact B].
   - apply leases_ok_nil. reflexivity.
+  - intros x Hx. specialize (I8 x). rewrite Hother by lia. exact (I14 x Hx).
+  - constructor.
+  - left. reflexivity.
+  - exact I17.
 Qed.
 
 (* ---------------------------------------------------------------------------------------- *)
@@ -948,6 +1013,7 @@ Proof.
     + reflexivity.
     + intros _ H. rewrite Hlen in H. lia.
     + intros _. constructor; [exact Hshm|constructor].
+    + intros _. split; [lia|constructor; [exact Hshm|constructor]].
   - unfold content. cbn [slices set_wpos push_back set_slices]. rewrite Hsl. cbn [app map concat]. rewrite Hbody. reflexivity.
   - intros x. cbn [slices set_wpos push_back set_slices]. rewrite Hsl. cbn [app]. specialize (Q1 x). specialize (Hown x). lia.
 Qed.
@@ -1078,7 +1144,7 @@ Proof.
     eexists. eexists. exists idss. split; [reflexivity|]. split; [reflexivity|exact H].
   - (* RReleaseReuse *)
     pose proof (Inv_release_reserve s sp idss I) as H. destruct (release_reserve (mem s) (rcv s)) as [m1 l1].
-    eexists. eexists. exists idss. split; [reflexivity|]. split; [reflexivity|exact H].
+    eexists. eexists. exists idss. split; [reflexivity|]. split; [reflexivity|exact (proj1 H)].
   - (* RClose *)
     pose proof (Inv_close s sp idss I) as H. destruct (lb_recycle (mem s) (rcv s)) as [m1 l1].
     eexists. eexists. exists idss. split; [reflexivity|]. split; [reflexivity|exact H].
@@ -1153,12 +1219,15 @@ Proof.
   - unfold frees. cbn [free]. rewrite B. apply seq_NoDup.
 Qed.
 
-Lemma Inv_init cfg : cfg_ok cfg -> Inv (init_sys cfg) spec0 [].
+Definition Inv1 := Inv [] (fun _ => None).    (* a single pipe: nothing is owned by another direction *)
+
+Lemma Inv_init cfg : cfg_ok cfg -> Inv1 (init_sys cfg) spec0 [].
 Proof.
+  unfold Inv1.
   intros Hc. destruct (init_store cfg Hc) as [Hok Hnd].
   constructor; cbn [init_sys mem snd pend rcv oth infb spec0 pw infl av empty_buf slices pinned recycled leases concat app].
   - exact Hok.
-  - constructor; cbn; try constructor; try reflexivity; try (intros H; congruence).
+  - apply (WB_clean (init_shm cfg) empty_buf).
   - reflexivity.
   - constructor.
   - apply WF_empty.
@@ -1170,11 +1239,15 @@ Proof.
   - intros H. congruence.
   - intros _. split; [constructor|intros d []].
   - intros le [].
+  - intros x Hx. rewrite cnt_nil in Hx. lia.
+  - constructor.
+  - left. reflexivity.
+  - repeat split.
 Qed.
 
 (* C06: the whole pipe refines the byte queue *)
 Theorem pipe_refines cfg ops : cfg_ok cfg -> agrees (init_sys cfg) spec0 ops.
-Proof. intros Hc. eapply agrees_of_Inv. apply Inv_init. exact Hc. Qed.
+Proof. intros Hc. eapply (agrees_of_Inv [] (fun _ => None)). apply Inv_init. exact Hc. Qed.
 
 (* the invariant holds in every state reachable from the initial one *)
 Fixpoint spec_run (sp : spec) (ops : list op) : spec :=
@@ -1183,11 +1256,11 @@ Fixpoint spec_run (sp : spec) (ops : list op) : spec :=
   | o :: r => match spec_step sp o with Some (_, sp') => spec_run sp' r | None => spec_run sp r end
   end.
 
-Theorem reachable_Inv : forall ops s sp idss s', Inv s sp idss -> run s ops = Ok s' -> exists idss', Inv s' (spec_run sp ops) idss'.
+Theorem reachable_Inv ext Eg : forall ops s sp idss s', Inv ext Eg s sp idss -> run s ops = Ok s' -> exists idss', Inv ext Eg s' (spec_run sp ops) idss'.
 Proof.
   induction ops as [|o ops IH]; intros s sp idss s' I H; cbn [run spec_run] in *.
   - injection H as <-. exists idss. exact I.
-  - pose proof (step_inv s sp idss o I) as Hs. destruct (spec_step sp o) as [[x sp']|].
+  - pose proof (step_inv ext Eg s sp idss o I) as Hs. destruct (spec_step sp o) as [[x sp']|].
     + destruct Hs as [y [s1 [idss1 [H1 [_ I1]]]]]. rewrite H1 in H. eapply IH; eassumption.
     + rewrite Hs in H. eapply IH; eassumption.
 Qed.
@@ -1198,16 +1271,16 @@ Theorem leases_safe cfg ops s' le : cfg_ok cfg -> run (init_sys cfg) ops = Ok s'
   ~ In (l_off le) (frees (mem s')) /\ lease_bytes (mem s') le = l_bytes le
   /\ ~ In (l_off le) (offs (slices (snd s'))) /\ ~ In (l_off le) (offs (oth s')).
 Proof.
-  intros Hc Hrun Hin Hs. destruct (reachable_Inv ops _ _ _ _ (Inv_init cfg Hc) Hrun) as [idss' I].
-  destruct (Inv_leases_safe _ _ _ le I Hin Hs) as [A [B [C [D _]]]]. auto.
+  intros Hc Hrun Hin Hs. destruct (reachable_Inv _ _ ops _ _ _ _ (Inv_init cfg Hc) Hrun) as [idss' I].
+  destruct (Inv_leases_safe _ _ _ _ _ le I Hin Hs) as [A [B [C [D _]]]]. auto.
 Qed.
 
 (* only fast-path ReadBytes / Peek create leases: every other result is a copy *)
 Theorem no_panic cfg ops : cfg_ok cfg -> forall w, run (init_sys cfg) ops <> Panic w.
 Proof.
-  intros Hc w. assert (G : forall ops s sp idss, Inv s sp idss -> run s ops <> Panic w).
+  intros Hc w. assert (G : forall ops s sp idss, Inv1 s sp idss -> run s ops <> Panic w).
   { clear ops. induction ops as [|o ops IH]; intros s sp idss I; cbn [run]; [discriminate|].
-    pose proof (step_inv s sp idss o I) as Hs. destruct (spec_step sp o) as [[x sp']|].
+    pose proof (step_inv _ _ s sp idss o I) as Hs. destruct (spec_step sp o) as [[x sp']|].
     - destruct Hs as [y [s1 [idss1 [H1 [_ I1]]]]]. rewrite H1. eapply IH; exact I1.
     - rewrite Hs. eapply IH; exact I. }
   eapply G. apply Inv_init. exact Hc.
